@@ -353,28 +353,36 @@ Section Programs.
     acq L_db ;;; r <- rd (fun t => match find_trk (db_trks t) uuid with Some _ => true | None => false end) ;;
     rel L_db ;;; Ret r.
 
-  (* Watcher::add_appointment *)
-  Definition add_appointment_p (signer : option N) (loc : N) (b : blob) (delay sig : N) : prog add_result :=
+  (* Watcher::add_appointment up to (not including) the locator-cache critical section:
+     inl = the reply is already decided, inr = (appointment to store, available slots, expiry) *)
+  Definition add_pre_p (signer : option N) (loc : N) (b : blob) (delay sig : N) : prog (add_result + (app * N * N)) :=
     ou <- authenticate_p signer ;;
     match ou with
-    | None => Ret AddAuthOrSlots
+    | None => Ret (inl AddAuthOrSlots)
     | Some u =>
         e <- expired_p u ;;
-        if fst e then Ret (AddExpired (snd e))
+        if fst e then Ret (inl (AddExpired (snd e)))
         else
           start <- rd w_height ;;
-          let a := mk_app loc u b delay sig start in
           ht <- has_tracker_p (loc, u) ;;
-          if ht then Ret AddTriggered
+          if ht then Ret (inl AddTriggered)
           else
             ch <- charge_p u (loc, u) (b_len b) ;;
             match ch with
-            | None => Ret AddAuthOrSlots
-            | Some available =>
-                cache_section_p a ;;;
-                Ret (AddOk start sig available (snd e))
+            | None => Ret (inl AddAuthOrSlots)
+            | Some available => Ret (inr (mk_app loc u b delay sig start, available, snd e))
             end
     end.
+
+  Definition add_finish (x : add_result + (app * N * N)) : prog add_result :=
+    match x with
+    | inl r => Ret r
+    | inr (a, available, expiry) => cache_section_p a ;;; Ret (AddOk (a_start a) (a_sig a) available expiry)
+    end.
+
+  (* Watcher::add_appointment *)
+  Definition add_appointment_p (signer : option N) (loc : N) (b : blob) (delay sig : N) : prog add_result :=
+    x <- add_pre_p signer loc b delay sig ;; add_finish x.
 
   Definition load_for_get (uuid : N * N) (t : tower) : get_result :=
     match find_trk (db_trks t) uuid, find_app (db_apps t) uuid with
